@@ -235,7 +235,8 @@ def register_retrace(w):
         t0 = time.time()
         for oname, wn, bound in (("the_converted_callable_retraces_like_a_never_converted_twin", "C13_retrace_family",
                                   "6 plain functions x {concrete, symbolic, double-precision, failing} conversions; make_jaxpr / jit / eval_shape on the same function object afterwards"),
-                                 ("a_jit_compiled_helper_of_the_converted_function_works_afterwards", "D36", "one program: @jax.jit inner(a) = tanh(a) + 1 called by the converted lambda")):
+                                 ("a_jit_compiled_helper_of_the_converted_function_works_afterwards", "D36", "one program: @jax.jit inner(a) = tanh(a) + 1 called by the converted lambda"),
+                                 ("the_first_conversion_of_a_process_leaves_jax_numpy_cumsum_as_it_was", "D39", "one fresh interpreter: jnp.cumsum identity and jnp.cumsum(x, 1) before and after the first to_onnx")):
             holds, detail = run_witness(wn, timeout=900)
             d = {"oid": f"jax2onnx.user_interface:to_onnx#bounded:{oname}", "kind": "bounded", "status": "discharged" if holds else ("refuted" if holds is False else "unknown"),
                  "backend": "enumerated", "time": time.time() - t0, "instances": 1, "trivial": 0, "bounded": bound, "note": f"eager JAX after the conversion compared with a never-converted twin; {detail}"[:500]}
@@ -244,7 +245,7 @@ def register_retrace(w):
             out["obls"].append(d)
         out["paths"], out["time"] = 1, time.time() - t0
         return out
-    w.add_contract(Contract("jax2onnx.user_interface:<retrace-after-conversion>", kind="custom", custom=custom, props=["C13"], witnesses=["C13_retrace_family", "D36"]))
+    w.add_contract(Contract("jax2onnx.user_interface:<retrace-after-conversion>", kind="custom", custom=custom, props=["C13"], witnesses=["C13_retrace_family", "D36", "D39"]))
 
 
 # =====================================================================
